@@ -72,8 +72,21 @@ func Munmap(b []byte) error {
 	if err := unix.Mprotect(b, unix.PROT_NONE); err != nil {
 		return err
 	}
+	if x.unmapped == nil {
+		x.unmapped = map[*byte]bool{}
+	}
+	x.unmapped[&b[0]] = true
 	x.cleanup = append(x.cleanup, func() { unix.Munmap(b) })
 	return nil
+}
+
+// WasUnmapped reports whether the code under test already unmapped this region in the current execution.
+func WasUnmapped(b []byte) bool {
+	x := X
+	if x == nil {
+		x = cleaning
+	}
+	return x != nil && len(b) > 0 && x.unmapped[&b[0]]
 }
 
 type vListener struct {
@@ -120,4 +133,15 @@ func (l *vListener) Close() error {
 	l.closed = true
 	l.f.Close()
 	return l.Listener.Close()
+}
+
+// TrackFile remembers an *os.File created by the code under test so that the harness can close it when the
+// execution is torn down (Close is idempotent; an unclosed file would be closed by its finalizer at an arbitrary
+// later time, possibly after its descriptor number was reused by a later execution).
+func TrackFile(f *os.File, err error) (*os.File, error) {
+	x := X
+	if x != nil && f != nil {
+		x.cleanup = append(x.cleanup, func() { f.Close() })
+	}
+	return f, err
 }
